@@ -114,6 +114,7 @@ def mutants(only=None):
 
 
 def main(argv):
+    core.scratch_base()
     if "--smoke" in argv:
         return smoke()
     world.import_memento()
